@@ -340,6 +340,8 @@ def _commutes_rules(ctx, repo):
     shared.discarded_value_rule(ctx, 'C08.i')
     ctx.decided.append('C08.j predicates and builders write the private fields of another object only when that object was created in the same function (EigenGate._equal_up_to_global_phase_ zeroes _global_shift on the result of _with_exponent, which therefore must never be self)')
     shared.foreign_store_rule(ctx, 'C08.j')
+    ctx.decided.append('C08.k no branch that handles negative values (inversion for negative exponents) is made unreachable by a preceding abs()')
+    shared.impossible_sign_test_rule(ctx, 'C08.k')
 
 
 def _true_trace_distance(angles):
